@@ -270,18 +270,26 @@ class WKCResource(Resource):
                 def matchexp(x, v=v):
                     return x == v
 
+            def values(link, k=k):
+                # All values of attribute k; a link that does not carry the
+                # attribute has none (and thus never matches)
+                return [val for (key, val) in link.attr_pairs if key == k]
+
             if k in ("rt", "if", "ct"):
                 filters.append(
-                    lambda link: any(
+                    lambda link, values=values, matchexp=matchexp: any(
                         matchexp(part)
-                        for part in (" ".join(getattr(link, k, ()))).split(" ")
+                        for value in values(link)
+                        for part in (value or "").split(" ")
                     )
                 )
             elif k in ("href",):  # x.href is single valued
-                filters.append(lambda link: matchexp(getattr(link, k)))
+                filters.append(lambda link, matchexp=matchexp: matchexp(link.href))
             else:
                 filters.append(
-                    lambda link: any(matchexp(part) for part in getattr(link, k, ()))
+                    lambda link, values=values, matchexp=matchexp: any(
+                        matchexp(value or "") for value in values(link)
+                    )
                 )
 
         while filters:
